@@ -360,10 +360,10 @@ impl<'a> TypedGen<'a> {
                     self.out.push(Op::Br(l as u32));
                     return true;
                 }
-                16 => {
+                16 | 19 => {
                     let cands: Vec<u32> = (0..labels.len()).filter(|i| !labels[*i].0 && labels[*i].1 == 0).map(|i| i as u32).collect();
                     if cands.is_empty() { continue; }
-                    let k = self.r.below(3);
+                    let k = self.r.below(5);
                     let mut ts = vec![];
                     for _ in 0..k { ts.push(cands[self.r.below(cands.len() as u64) as usize]); }
                     let d = cands[self.r.below(cands.len() as u64) as usize];
